@@ -559,4 +559,34 @@ example : ((withdrawOp demo 1 1 (fun d => if d = "uband" then 21 else 0)).1.acti
 example : (withdrawOp demo 1 1 (fun d => if d = "uband" then 51 else 0)).2 = Err.insufficientDeposit := by decide
 example : (activateOp demo 1 1).2 = Err.invalidCreator := by decide
 
+/-! ## genesis: a state accepted by the deposit clauses of `ValidateGenesis` is fully backed -/
+
+/-- PROPERTY (a valid genesis is fully backed): if the deposit clauses accept, every tunnel's total deposit is, in every denom,
+    the sum of the deposit records booked on it — in particular a tunnel with a positive total has a record -/
+theorem valid_genesis_is_fully_backed (nd : Nat) (tunnels : List (Nat × List Nat)) (deps : List (Nat × Nat × List Nat))
+    (h : genesisDepositsOk nd tunnels deps = true) (t : Nat × List Nat) (ht : t ∈ tunnels) (k : Nat) (hk : k < nd) :
+    t.2.getD k 0 = (deps.filter (·.1 == t.1)).foldl (fun acc d => acc + d.2.2.getD k 0) 0 := by
+  unfold genesisDepositsOk at h
+  simp only [Bool.and_eq_true, List.all_eq_true, decide_eq_true_eq, beq_iff_eq] at h
+  exact h.2 t ht k (List.mem_range.mpr hk)
+
+/-- … so a genesis in which a tunnel claims a positive total without any deposit record is rejected -/
+theorem unbacked_genesis_rejected (nd : Nat) (tunnels : List (Nat × List Nat)) (deps : List (Nat × Nat × List Nat))
+    (t : Nat × List Nat) (ht : t ∈ tunnels) (k : Nat) (hk : k < nd) (hpos : 0 < t.2.getD k 0)
+    (hnone : ∀ d ∈ deps, d.1 ≠ t.1) : genesisDepositsOk nd tunnels deps = false := by
+  cases hok : genesisDepositsOk nd tunnels deps with
+  | false => rfl
+  | true =>
+    have := valid_genesis_is_fully_backed nd tunnels deps hok t ht k hk
+    have he : deps.filter (·.1 == t.1) = [] := by
+      apply List.filter_eq_nil_iff.mpr
+      intro d hd
+      simpa using hnone d hd
+    rw [he] at this
+    simp only [List.foldl_nil] at this
+    omega
+
+example : genesisDepositsOk 2 [(1, [100, 0]), (2, [0, 0])] [(1, 0, [60, 0]), (1, 1, [40, 0])] = true := by decide
+example : genesisDepositsOk 2 [(1, [100, 0])] [] = false := by decide
+
 end C17
